@@ -1,5 +1,8 @@
 import Proofs.Lemmas.AutogradChain
 import Proofs.Lemmas.AutogradExp
+import Proofs.Lemmas.AutogradExpSE3
+import Proofs.Lemmas.AutogradLog
+import Proofs.Lemmas.AutogradZero
 import Proofs.Lemmas.AutogradLocalSO3a
 import Proofs.Lemmas.AutogradLocalSO3b
 import Proofs.Lemmas.AutogradLocalSE3a
@@ -484,4 +487,90 @@ theorem so3_Exp_nodeOK (dJ : DJ ℝ) (eps : ℝ) (heps : 0 ≤ eps) (lt : List T
       have := so3Exp_normSq_closed eps (v3 (eval eps (env 0) p)) heps hth
       simpa [expF, qt, Quat.toList] using this
     · simp only [tangent, jvp1, length_mulVec _ (Shape_JlMat .SO3 eps _)]
+/-- local correctness of an `SO3` `Log` node in regime 1, in the form needed by `TransSpec` -/
+theorem so3_Log_nodeOK (dJ : DJ ℝ) (eps : ℝ) (heps : 0 ≤ eps) (lt : List Ty) (env : ℝ → List (DVec ℝ)) (tan : List (DVec ℝ))
+    (p : Prog) (hp : NodeOK dJ eps lt env tan p)
+    (hv : eps < (qt (eval eps (env 0) p)).vec.norm) (hw : eps < |(qt (eval eps (env 0) p)).w|)
+    (hφ : eps < (v3 (logF .SO3 eps (eval eps (env 0) p))).norm) :
+    NodeOK dJ eps lt env tan (.un .Log .SO3 p) := by
+  intro ty hty
+  simp only [tyOf] at hty
+  cases hpt : tyOf lt p with
+  | none => simp [hpt] at hty
+  | some t =>
+    simp only [hpt, Option.bind_some, ty1] at hty
+    split at hty <;> simp at hty
+    rename_i ht; subst ht; subst hty
+    obtain ⟨hX, hu, hs, hτ⟩ := curveOK_G.mp (hp _ hpt)
+    obtain ⟨a0, a1, a2, ha⟩ := len3 _ hτ
+    refine curveOK_V.mpr ⟨?_, ?_, ?_⟩
+    · have := SO3Log_tangent eps heps (fun s => eval eps (env s) p) a0 a1 a2 (by rw [← ha]; exact hX) hu hv hw hφ
+      simp only [tangent, jvp1, ha]
+      exact this
+    · intro t; simp only [eval, fwd1]; exact length_logF .SO3 eps _
+    · simp only [tangent, jvp1, length_mulVec _ (Shape_JlInvMat .SO3 eps _)]
+
+/-- **the true retraction has the tangent `liftG` describes** (`SO3`): `t ↦ so3_Exp(t·τ) @ X` — the curve along which
+`X.grad` is defined — is a curve through `X` with left-perturbation tangent `τ`. -/
+theorem retr_tangent_SO3 (eps : ℝ) (heps : 0 < eps) (X τ : DVec ℝ) (hX : X.length = 4) (hτ : τ.length = 3) :
+    GTangent .SO3 (fun t => retrF .SO3 eps X [t * nth τ 0, t * nth τ 1, t * nth τ 2]) τ := by
+  obtain ⟨a0, a1, a2, rfl⟩ := len3 τ hτ
+  simp only [nth_cons_zero, nth_cons_succ]
+  -- the algebra curve t ↦ t·τ through 0
+  have hx : LCurve 3 (fun t : ℝ => [t * a0, t * a1, t * a2]) [a0, a1, a2] := by
+    intro i hi
+    interval_cases i
+    · simpa using (hasDerivAt_id (0:ℝ)).mul_const a0
+    · simpa using (hasDerivAt_id (0:ℝ)).mul_const a1
+    · simpa using (hasDerivAt_id (0:ℝ)).mul_const a2
+  have hE := so3Exp_tangent_zero eps heps (fun t : ℝ => [t * a0, t * a1, t * a2]) a0 a1 a2 hx (by simp [v3])
+  -- Jl(0) = 1, Exp(0) = identity
+  have hJ : (JlMat .SO3 eps ((fun t : ℝ => [t * a0, t * a1, t * a2]) 0)).mulVec [a0, a1, a2] = [a0, a1, a2] := by
+    have h0 : ((fun t : ℝ => [t * a0, t * a1, t * a2]) 0) = DVec.zero (Grp.SO3).adim := by simp [DVec.zero, Grp.adim]
+    rw [h0, JlMat_zero .SO3 eps (le_of_lt heps)]
+    simp [DMat.one, DMat.mulVec, DVec.basis, Grp.adim, List.range, List.range.loop, ddot_cons]
+  rw [hJ] at hE
+  -- the constant curve X with zero tangent
+  have hY : LCurve 4 (fun _ : ℝ => X) (liftG .SO3 X [0, 0, 0]) := by
+    intro i hi
+    have : nth (liftG .SO3 X [0, 0, 0]) i = 0 := by
+      interval_cases i <;> simp [liftG, liftQ, Quat.toList, Quat.mul, Quat.mk', Vec3.smul, v3]
+    rw [this]; exact hasDerivAt_const _ _
+  have hval : expF .SO3 eps ((fun t : ℝ => [t * a0, t * a1, t * a2]) 0) = [0, 0, 0, 1] := by
+    have h : ¬ eps < (v3 ([0 * a0, 0 * a1, 0 * a2] : DVec ℝ)).norm := by
+      simp [v3, Vec3.norm, Vec3.normSq]; exact le_of_lt heps
+    simp only [expF, so3Exp_taylor eps _ h]
+    simp [Quat.mk', Vec3.smul, Quat.toList, Vec3.normSq, v3]
+  have hu : (qt (expF .SO3 eps ((fun t : ℝ => [t * a0, t * a1, t * a2]) 0)) 0).normSq = 1 := by
+    rw [hval]; simp [qt, Quat.normSq]
+  have := mul_tangent_SO3 (fun t => expF .SO3 eps [t * a0, t * a1, t * a2]) (fun _ => X) a0 a1 a2 0 0 0 hE hY hu
+  unfold GTangent retrF
+  have e : DVec.add [a0, a1, a2] ((AdjMat .SO3 ((fun t => expF .SO3 eps [t * a0, t * a1, t * a2]) 0)).mulVec [0, 0, 0]) = [a0, a1, a2] := by
+    simp [DVec.add, DMat.mulVec, AdjMat, Mat3.toRows, Vec3.toList, ddot_cons]
+  rw [e] at this
+  exact this
+
+/-- local correctness of an `se3` `Exp` node on the closed-form branches, in the form needed by `TransSpec` -/
+theorem se3_Exp_nodeOK (dJ : DJ ℝ) (eps : ℝ) (heps : 0 ≤ eps) (lt : List Ty) (env : ℝ → List (DVec ℝ)) (tan : List (DVec ℝ))
+    (p : Prog) (hp : NodeOK dJ eps lt env tan p) (hth : eps < (v3 (eval eps (env 0) p) 3).norm)
+    (hq : (5:ℝ)/100 < (v3 (eval eps (env 0) p) 3).norm) :
+    NodeOK dJ eps lt env tan (.un .Exp .SE3 p) := by
+  intro ty hty
+  simp only [tyOf] at hty
+  cases hpt : tyOf lt p with
+  | none => simp [hpt] at hty
+  | some t =>
+    simp only [hpt, Option.bind_some, ty1] at hty
+    split at hty <;> simp at hty
+    rename_i ht; subst ht; subst hty
+    obtain ⟨hL, hl, hτ⟩ := curveOK_V.mp (hp _ hpt)
+    obtain ⟨d0, d1, d2, d3, d4, d5, hd⟩ := len6 _ hτ
+    refine curveOK_G.mpr ⟨?_, ?_, trivial, ?_⟩
+    · have := se3Exp_tangent eps heps (fun s => eval eps (env s) p) d0 d1 d2 d3 d4 d5 (by rw [← hd]; exact hL) hth hq
+      simp only [tangent, jvp1, hd]
+      exact this
+    · show (qt (expF .SE3 eps (eval eps (env 0) p)) 3).normSq = 1
+      have := so3Exp_normSq_closed eps (v3 (eval eps (env 0) p) 3) heps hth
+      simpa [expF, se3Exp, SE3.toList, tose3, qt, Quat.toList, Vec3.toList] using this
+    · simp only [tangent, jvp1, length_mulVec _ (Shape_JlMat .SE3 eps _)]
 end PP.AD
